@@ -6,7 +6,7 @@ READY = True
 META = {
     "technique": "Lean 4 proof (serde data model by shape: de ∘ ser = id; handle registry; JSON writer for whole values in all formatter styles + independent JSON reader: read ∘ tojson ∘ write = id; HTML-safe alphabet) + differential runs of a shape-driven Serialize/DeserializeSeed pair, derived types, and three independent JSON readers (Python json, serde_json, the Lean reader)",
     "category": "proof",
-    "text": "Kernel-checked theorems about an executable model of value/serialize.rs (ValueSerializer), value/deserialize.rs (Deserializer for Value driven by the derived visitor of a shape, including serde's lenient primitive conversions) and the value-handle registry: every well-formed datum of every shape (bools, 8..64-bit integers, f32/f64 bit patterns, chars, strings, bytes, options of non-optional payloads, unit, seqs, tuples, maps, unit/newtype/tuple/field structs, enums with unit/newtype/tuple/struct variants, nested arbitrarily) deserialises from its serialisation to itself; de decides (ok/error) every object-free value for every shape; an embedded Value comes back identical whatever the registry held before. For JSON: the text of every value that has a JSON image (nested arrays/objects, keys by string form, none/undefined/non-finite floats null, bytes as numbers, integers of every width, finite floats by ryu's shortest text) written by serde_json's compact writer, the JinjaJsonFormatter, or the pretty writer with any indent, and post-processed by tojson (table extracted from filters.rs) or not (auto-escaping), is read back to exactly that image by an independent strict JSON reader; tojson output never contains < > & '; towards an external serializer a value announces a sequence length only when exactly that many elements follow (serde's contract, which serde_json relies on), for lists, tuples, one-shot iterators, make_iterable adapters and custom objects with every Enumerator answer. The model is tied to /repo by running the same random shapes/data through the real Serializer/Deserializer and through the model, and by predicting the real tojson / auto-escape output character for character (member order of the BTreeMap and IndexMap builds, float text), which is also parsed by Python's json (bit-exact floats) and serde_json.",
+    "text": "Kernel-checked theorems about an executable model of value/serialize.rs (ValueSerializer), value/deserialize.rs (Deserializer for Value driven by the derived visitor of a shape, including serde's lenient primitive conversions) and the value-handle registry: every well-formed datum of every shape (bools, 8..64-bit integers, f32/f64 bit patterns, chars, strings, bytes, options of non-optional payloads, unit, seqs, tuples, maps, unit/newtype/tuple/field structs, enums with unit/newtype/tuple/struct variants, nested arbitrarily) deserialises from its serialisation to itself; de decides (ok/error) every object-free value for every shape; an embedded Value comes back identical whatever the registry held before, and the two-tier handle registry (its fast-path condition regenerated from the source) refines a finite map for every sequence of inserts and removes. For JSON: the text of every value that has a JSON image (nested arrays/objects, keys by string form, none/undefined/non-finite floats null, bytes as numbers, integers of every width, finite floats by ryu's shortest text) written by serde_json's compact writer, the JinjaJsonFormatter, or the pretty writer with any indent, and post-processed by tojson (table extracted from filters.rs) or not (auto-escaping), is read back to exactly that image by an independent strict JSON reader; tojson output never contains < > & '; towards an external serializer a value announces a sequence length only when exactly that many elements follow (serde's contract, which serde_json relies on), for lists, tuples, one-shot iterators, make_iterable adapters and custom objects with every Enumerator answer. The model is tied to /repo by running the same random shapes/data through the real Serializer/Deserializer and through the model, and by predicting the real tojson / auto-escape output character for character (member order of the BTreeMap and IndexMap builds, float text), which is also parsed by Python's json (bit-exact floats) and serde_json.",
     "design_ref": "DESIGN.md §3 C16",
     "level_note": "Trusted: Lean kernel; hand transcription of serialize.rs/deserialize.rs/ValueHandleRegistry into MJ/Model/Serde.lean and of serde_json's writer/formatters, ryu's format64 layout and Value::cmp on map keys into MJ/Model/Json.lean (validated by the correspondence streams, sampled; every emitted text is predicted exactly); serde's own primitive/Option/seq/map visitors and derive output are represented by the harness' Seed visitors (and by 13 really derived types). Not proved: that the printed float token denotes the same double (checked bit-exactly against Python's correctly rounded reader on every float case).",
 }
@@ -338,7 +338,7 @@ def check_lines(r, lines, model):
 
 def run(r):
     r.rule = ("random shapes of the serde data model to depth 4 with boundary-heavy data (+ hand-picked anchors), cross-shape deserialisation, "
-              "13 derived types, embedded values in 13 contexts x 18 kinds, lazily produced sequences/maps of 24 kinds (one-shot iterators, "
+              "13 derived types, embedded values in 22 contexts x 18 kinds (incl. shapes for which serde buffers several embedded values: flatten + enum struct/tuple variants, internally tagged wrappers, a buffering adapter), the handle registry with up to 40 handles alive at once resolved in creation / reverse / random order, with omissions and repeats (fresh thread per case), lazily produced sequences/maps of 24 kinds (one-shot iterators, "
               "make_iterable adapters, custom Objects with every Enumerator answer) at top level and nested through every JSON mode, a "
               "shape-recording serializer (serde length contract) and as deserialisation sources, 50 template-built lazy expressions, "
               "objects lying about their length (model tie only), invalid values, nesting to depth 200, representation/attribute variants of derived types "
